@@ -96,3 +96,20 @@ Theorem C02_empty_selection_iff : forall S L ann seeder nw,
    (nw = 0 \/ (pool_s S seeder = [] /\ pool_l L ann seeder = []))).
 Proof. exact empty_selection_iff. Qed.
 Print Assumptions C02_empty_selection_iff.
+
+(* ---- the response hook (Model/Tracker.v `respond`, what both frontends send), for ANY store state: the peers
+   of an announce response are the decoded keys of a selection satisfying selection_spec with respect to the
+   swarm's current seeder and leecher keys and the request's sanitised numwant; when that selection is empty the
+   response is just the announcer with its own count bumped *)
+From Chihaya Require Import Model.Tracker Proofs.TrackerP Proofs.FamilyP.
+Theorem C02_response_selection : forall (a : ann) sp c i ps,
+  0 <= a_numwant a -> respond spec_if a sp = Some (c, i, ps) ->
+  let '(Sk, Lk) := key_lists spec_if sp (a_ih a) (a_v6 a) in
+  let seeding := a_left a =? 0 in
+  exists ks l, selection_spec Sk Lk (a_key a) seeding (a_numwant a) ks /\ decode_all ks = Some l /\
+    ((l = [] /\ ps = [a_peer a] /\
+      c = wrap32 ((st_scrape spec_if (a_ih a) (a_v6 a) sp).1 + (if seeding then 1 else 0)) /\
+      i = wrap32 ((st_scrape spec_if (a_ih a) (a_v6 a) sp).2 + (if seeding then 0 else 1))) \/
+     (l <> [] /\ ps = l /\ (c, i) = st_scrape spec_if (a_ih a) (a_v6 a) sp)).
+Proof. exact respond_selection. Qed.
+Print Assumptions C02_response_selection.
